@@ -119,8 +119,31 @@ def gen_segment(r, same_span=True, allow_empty=True):
     total = 2 * r.randrange(32, 32 * 24)
     riv, rlab = gen.segmentation(r, total=total, min_len=4)
     kind = r.choice(["independent", "independent", "copy", "refine", "coarse",
-                     "shifted"])
-    if kind == "copy":
+                     "shifted", "sparse-mid"])
+    if kind == "sparse-mid":
+        # long segments whose lengths are multiples of 2g; estimated boundaries
+        # sit on reference boundaries or exactly midway between two of them, so
+        # one estimate can be within g of two references (and vice versa)
+        g = r.choice([16, 32, 8])          # 0.25 / 0.5 / 0.125 s
+        bs = [0]
+        for _ in range(r.randrange(2, 9)):
+            bs.append(bs[-1] + 2 * g * r.choice([1, 1, 2, 3]))
+        total = bs[-1]
+        riv = np.array([[a / Q, b / Q] for a, b in zip(bs[:-1], bs[1:])])
+        rlab = gen.labels(r, len(riv))
+        es = [0]
+        for a, b in zip(bs[:-1], bs[1:]):
+            u = r.random()
+            if b - a == 2 * g and u < 0.5:
+                es.append((a + b) // 2)
+            elif u < 0.8 and b != total:
+                es.append(b)
+        es = sorted(set(es + [total]))
+        eiv = np.array([[a / Q, b / Q] for a, b in zip(es[:-1], es[1:])])
+        elab = gen.labels(r, len(eiv))
+        if r.random() < 0.5:
+            riv, rlab, eiv, elab = eiv, elab, riv, rlab
+    elif kind == "copy":
         eiv, elab = riv.copy(), list(rlab)
     elif kind == "refine":
         bs = sorted(set([int(x * Q) for x in riv.ravel()] +
@@ -161,6 +184,11 @@ def gen_segment_eval(r):
         inp["est_iv"] = np.vstack([eiv, [end, end + extra]])
         inp["est_lab"] = inp["est_lab"] + ["tail"]
         inp["cls"] = "est-longer"
+    elif u < 0.72 and len(eiv) >= 3:  # estimate starts later and ends earlier
+        k1 = r.randrange(1, len(eiv) - 1)
+        k2 = r.randrange(k1 + 1, len(eiv))
+        inp["est_iv"], inp["est_lab"] = eiv[k1:k2].copy(), inp["est_lab"][k1:k2]
+        inp["cls"] = "est-inside"
     elif u < 0.8:  # estimate starts later
         k = r.randrange(0, len(eiv))
         inp["est_iv"], inp["est_lab"] = eiv[k:].copy(), inp["est_lab"][k:]
@@ -283,6 +311,11 @@ def calls_chord(inp, r):
     out.append(("chord.overseg", siv, {}))
     out.append(("chord.underseg", siv, {}))
     out.append(("chord.seg", siv, {}))
+    # annotations with un-annotated gaps and different spans are valid as well
+    giv = (gen.gapped_intervals(r), gen.gapped_intervals(r))
+    out.append(("chord.overseg", giv, {}))
+    out.append(("chord.underseg", giv, {}))
+    out.append(("chord.seg", giv, {}))
     w = np.array([r.randrange(0, 9) / 8.0 for _ in range(n)])
     c = np.array([float(r.choice([1, 0, -1, 1, 0])) for _ in range(n)])
     if n:
